@@ -1000,3 +1000,66 @@ get_splits = REG.add(Contract(
     local_sorts={"split_indices": ListT("int")},
     static=True, returns=ArrT("int"),
 ))
+
+
+# --------------------------------------------------------------------------------------
+# strax.io.save_file / _save_file: the byte size reported for a chunk file is the number of bytes written to it (C03)
+# --------------------------------------------------------------------------------------
+FIO = "strax/io.py"
+
+
+def _write_hook(eng, args, kw, st, fr, k, node):
+    g = dict(st.ghost)
+    g["written"] = eng.to_v(args[-1])
+    g["n_writes"] = st.ghost["n_writes"] + 1
+    return k(PNONE, St(st.env, st.heap, st.pc, g))
+
+
+_save_file_c = REG.add(Contract(
+    FIO, "_save_file", params=dict(f="V", data="V", compressor="V"),
+    ensures=lambda S, a, r: [("exactly one block is written to the file - the compressed data - and its length is what is returned",
+                              S.And(a.ghost.n_writes == 1, S.eq(a.ghost.written, a.local.d_comp),
+                                    S.to_int(r) == S.iter_len(a.local.d_comp)))],
+    raises={"AssertionError": lambda S, a: S.true, "Any": lambda S, a: S.true},
+    ghost={"written": z3.Const("nothing_written", V), "n_writes": z3.IntVal(0)},
+    calls={"f.write": _write_hook, "call:computed": Abstract(pure=True, may_raise=["Any"])},
+    consts={"COMPRESSORS": Opq(z3.Const("COMPRESSORS", V))},
+))
+
+
+def _open_hook(eng, args, kw, st, fr, k, node):
+    eng.oblige("save_file", "the data is first written under the temporary name (final name + '_temp')", st,
+               eng.to_v(args[0]) == eng.to_v(st.env["temp_fn"]), node)
+    return k(Opq(eng.fresh("write_file", "V")), st)
+
+
+def _inner_save(eng, args, kw, st, fr, k, node):
+    g = dict(st.ghost)
+    n = eng.fresh("bytes_written", "int")
+    g["bytes_written"] = n
+    g["data_written"] = z3.And(eng.to_v(args[1]) == eng.to_v(st.env["data"]), eng.to_v(args[2]) == eng.to_v(st.env["compressor"]))
+    fr.on_raise(Exc("Any", Opq(eng.fresh("write_exc", "V"))), st)
+    return k(n, St(st.env, st.heap, st.pc, g))
+
+
+def _rename_hook(eng, args, kw, st, fr, k, node):
+    eng.oblige("save_file", "the temporary file is renamed to the final name only after the data was written", st,
+               z3.And(eng.to_v(args[0]) == eng.to_v(st.env["temp_fn"]),
+                      eng.to_v(args[1]) == eng.to_v(st.env["final_fn"]), st.ghost["data_written"]), node)
+    return k(PNONE, St(st.env, st.heap, st.pc, {**st.ghost, "renamed": z3.BoolVal(True)}))
+
+
+save_file_str = REG.add(Contract(
+    FIO, "save_file", variant="file name", params=dict(f="V", data="V", compressor="V"),
+    requires=lambda S, a: [("f is a file name", S.is_instance(a.f, "str"))],
+    ensures=lambda S, a, r: [("the size reported (recorded as the chunk's filesize) is the number of bytes _save_file wrote, and the file "
+                              "carries its final name", S.And(S.to_int(r) == a.ghost.bytes_written, a.ghost.renamed))],
+    raises={"Any": lambda S, a: S.true},
+    ghost={"bytes_written": z3.IntVal(-2), "data_written": z3.BoolVal(False), "renamed": z3.BoolVal(False)},
+    calls={"open": _open_hook, "_save_file": _inner_save, "os.rename": _rename_hook,
+           # (not used by the code as it is; declared so that a version that asks the file system for sizes is judged by the
+           #  postcondition instead of ending in a checker error)
+           "os.path.getsize": Abstract(sort="int"), "os.stat": Abstract(), "write_file.tell": Abstract(sort="int"),
+           "write_file.flush": Abstract(sort=None), "os.fsync": Abstract(sort=None)},
+    with_handler=plain_with,
+))
